@@ -607,6 +607,9 @@ class Engine:
         f = self.prog.by_name.get(p) or self.prog.by_name.get(strip_generics(p))
         if f and f[0].kind == 'const':
             return self.call_fn(f[0], [], None)
+        f = self.prog.find_promoted(p)        # const items nested in methods / associated consts
+        if f is not None and f.kind == 'const':
+            return self.call_fn(f, [], None)
         return FnItem(p)
 
     # ---- rvalues ---------------------------------------------------------------
